@@ -145,6 +145,14 @@ class RemoteState(dict):
             cls.increment_patches_iter()
 
     @staticmethod
+    def recreate_obj_without_state(newobj, newargs):
+        ''' An object whose state is ``None``: ``__setstate__`` will not be called for it, it is complete as soon as it exists.
+        '''
+        ret = newobj(*newargs)
+        RemoteState.child_restored(ret)
+        return ret
+
+    @staticmethod
     def recreate_obj_and_patch_setstate(newobj, newargs, children_names):
         ret = newobj(*newargs)
         orig_getstate = getattr(type(ret), '__setstate__', None) # None if the class relies on the default unpickling behaviour
